@@ -70,10 +70,12 @@ pub fn catalogue() -> Vec<Entry> {
         mk("box-b", cyc(4), &[(3, 4)], &[], &[0, 1, 2, 3], &[2, 3, 4, 5], Quick),
         mk("dunce", vec![(0, 1), (0, 1), (1, 2), (2, 0)], &[(3, 4)], &[2], &[0, 2], &[2], Quick),
         mk("kite-a", kite.clone(), &[(1, 2)], &[4], &[0, 1], &[2], Thorough),
-        mk("kite-b", kite.clone(), &[(3, 4)], &[4], &[0, 1], &[2, 3], Thorough),
+        mk("kite-b", kite.clone(), &[(3, 4)], &[4], &[0, 1], &[3], Thorough),
         mk("kite-c", kite.clone(), &[(1, 2), (3, 4), (1, 2), (3, 4), (1, 2)], &[3], &[0, 1], &[2], Thorough),
         mk("pentagon", cyc(5), &[(3, 4)], &[2], &[0, 1, 2, 3, 4], &[2, 3, 4, 5, 6], Thorough),
-        mk("banana3", vec![(0, 1); 4], &[(7, 8)], &[0], &[0, 1], &[2], Thorough),
+        mk("banana3", vec![(0, 1); 4], &[(7, 8)], &[0], &[0, 1], &[2], Quick),
+        // three loops with a sparse L matrix: two bubbles hanging on a triangle (cycles that share no edge)
+        mk("necklace3", vec![(0, 1), (0, 1), (1, 2), (1, 2), (2, 0)], &[(5, 8)], &[4], &[0, 2], &[2], Quick),
         mk("banana4", vec![(0, 1); 5], &[(7, 8)], &[0], &[0, 1], &[2], Thorough),
         mk("banana5", vec![(0, 1); 6], &[(7, 8)], &[0], &[0, 1], &[2], Thorough),
         mk("mercedes", mercedes.clone(), &[(7, 8)], &[5], &[0, 1, 2], &[2, 3], Thorough),
@@ -110,4 +112,11 @@ pub fn banana(l: usize, d: usize) -> Entry {
         tier: Tier::Quick,
         rounding: true,
     }
+}
+
+/// a catalogue graph with the same number of edges and an accepted dimension `d` but a different loop number
+/// (used to put another sampler into the call history)
+pub fn partner(entry: &Entry, d: usize) -> Option<Entry> {
+    let l = entry.ograph().num_loops();
+    catalogue().into_iter().find(|e| !e.rounding && e.ne() == entry.ne() && e.dims.contains(&d) && e.ograph().num_loops() != l && e.ograph().connected())
 }
